@@ -21,7 +21,7 @@ import json,re;m=json.load(open('$d/meta.json'));print(' '.join(dict.fromkeys(c 
   echo "$s $p MISSED (checks tried: $p $others)" > $tmp/$s
 }
 export -f one
-ls -d /verif/seeded/S* | sort -t S -k2 -n | xargs -P $par -I{} bash -c "one {} $tmp"
+ls -d /verif/seeded/S* | sort -t S -k2 -n | { if [ -n "${PROPS:-}" ]; then grep -E -- "-($(echo $PROPS | tr " " "|"))-"; else cat; fi; } | xargs -P $par -I{} bash -c "one {} $tmp"
 { echo "# regression of the seeded changes against /verif $(git -C /verif rev-parse --short HEAD), /repo $(git -C /repo rev-parse --short HEAD), $(date -u +%FT%TZ)"; cat $tmp/S* | sort -t S -k2 -n; } > $out
 rm -rf $tmp
 grep -c CAUGHT $out; grep -v CAUGHT $out
